@@ -883,6 +883,16 @@ def run_hammer_stream(prop, stream, tier, seed, workdir, scale=1):
                         verdicts.append({"kind": "MON", "id": pid, "episode": 0, "step": 0, "raw": rp,
                                          "text": f"MON {pid} :: after parallel memory-aware stores into {f[2]} a stored key has no queue slot (or a slot is duplicated) at {incons} quiescent points: it can never be evicted and keeps the cache over its bound"})
                 continue
+            if f[0] == "HK":
+                calls, lost, isres = int(f[3]), int(f[4]), f[5] == "1"
+                acc["steps"] += calls
+                acc["events"]["parallel-fitting-memory-aware-stores"] = acc["events"].get("parallel-fitting-memory-aware-stores", 0) + calls
+                acc["nontrivial"].add(hash((r, "HK", f[1])))
+                if lost:
+                    for pid in (["C09"] if isres else []) + ["C03", "C05", "C14"]:
+                        verdicts.append({"kind": "MON", "id": pid, "episode": 0, "step": 0, "raw": [f"# hammer {seed + r} {threads} {rounds}", line],
+                                         "text": f"MON {pid} :: after parallel calls of {f[2]} (max_memory configured, all values fit together, every caller returned) {lost} of the six keys had to be computed again: a computed{' Ok' if isres else ''} result was not stored (or was evicted needlessly) under contention (free-running threads)"})
+                continue
             if f[0] == "HR":
                 reps_, bad = int(f[3]), int(f[4])
                 acc["steps"] += reps_
